@@ -15,6 +15,7 @@ def main():
     st = subprocess.run("git status --porcelain --untracked-files=no", shell=True, cwd=extract.REPO, capture_output=True, text=True).stdout.strip()
     assert st == "", "the tree must be clean"
     table = {}
+    adts = {}
     for cfg in ("libs-all", "facade-full", "pmcore", "repo-programs", "corpus"):
         fact_dir, _ = extract.ensure_facts(cfg)
         raws = []
@@ -23,6 +24,13 @@ def main():
                 with open(os.path.join(fact_dir, f)) as fh:
                     raws.append(json.load(fh))
         callees = facts.fn_callees(raws)
+        for d in raws:
+            for a in d["adts"]:
+                if not facts._adt_candidate(a, d["crate"]):
+                    continue
+                e = adts.setdefault(a["path"], {"crate": d["crate"], "shape": facts.adt_shape(a), "fields": [[f["n"] for f in v["fields"]] for v in a["variants"]], "names": sorted({v["n"] for v in a["variants"]} | {f["n"] for v in a["variants"] for f in v["fields"]}), "cfgs": []})
+                if cfg not in e["cfgs"]:
+                    e["cfgs"].append(cfg)
         for d in raws:
             for b in d["bodies"]:
                 if not facts._fp_candidate(b, d["crate"]):
@@ -33,6 +41,9 @@ def main():
     with open(facts.FP_FILE, "w") as fh:
         json.dump(table, fh, indent=0, sort_keys=True)
     print("fn_fingerprints: %d functions" % len(table))
+    with open(facts.ADT_FP_FILE, "w") as fh:
+        json.dump(adts, fh, indent=0, sort_keys=True)
+    print("adt_fingerprints: %d types" % len(adts))
 
 
 if __name__ == "__main__":
